@@ -32,6 +32,8 @@
 (*           PartitionOfUnity                                                  *)
 (*    Agree  gbasis fields with shared points and with the same points         *)
 (*           replicated per cell -> EvaluationFormsAgree                       *)
+(*    CellList gbasis for explicit cell lists of every shape vs the single-    *)
+(*           cell evaluations -> CellListCommutes                              *)
 (* The harness records Deriv / Map events in every EVALUATION FORM of the      *)
 (* library (tags xs): points shared by the cells, per-element point arrays     *)
 (* (replicated and genuinely different per cell, several cells at once,        *)
@@ -539,6 +541,49 @@ AgreeHolds(e) ==
                /\ \A j \in DOMAIN a : FxNearK(a[j], b[j], bits, MagOf(a[j]) + MagOf(b[j]))
 
 \* ---------------------------------------------------------------------------
+\* CellList: e = [spec, nt, idx, R, lists]  -- gbasis with an explicit cell list tind of every shape:
+\*   R[c][r][k]        = field records of output k of local index idx[r] evaluated for the SINGLE cell c (tind = <<c>>)
+\*   lists[l]          = [name, tind (1-based cells), err, F] with F[r][k] the field records delivered for the whole list
+\*                       (natural order, a permutation, exactly nt entries with repeats, proper subsets sorted / unsorted /
+\*                       with repeats, a single cell, more than nt entries, owners of the boundary facets; int32 / int64;
+\*                       shared and per-element points) at the same points
+\* The fields delivered for position p of the list are those of cell tind[p].  (Derivative and duality clauses on listed
+\* cells: the Deriv / Dual / Map / PoU events of every second chosen cell are recorded through a list of exactly nt
+\* entries with repeats in which the cell does not sit at its own position, tags tl.)
+CellSlice(f, p) ==
+  LET r == Len(f.shape)  nq == f.shape[r]  nc == f.shape[r - 1]  ncomp == Len(f.x) \div (nc * nq) IN
+  [m \in 1..(ncomp * nq) |-> f.x[((m - 1) \div nq) * nc * nq + (p - 1) * nq + ((m - 1) % nq) + 1]]
+CellListHarnessWF(e) ==
+  /\ SpecWF(e.spec) /\ e.nt >= 1 /\ Len(e.R) = e.nt
+  /\ \A l \in DOMAIN e.lists : /\ Len(e.lists[l].tind) >= 1
+                                /\ \A p \in DOMAIN e.lists[l].tind : e.lists[l].tind[p] \in 1..e.nt
+ListFieldWF(f, n) == /\ Len(f.shape) >= 2 /\ f.shape[Len(f.shape) - 1] = n /\ f.shape[Len(f.shape)] >= 1
+                     /\ Len(f.x) % (n * f.shape[Len(f.shape)]) = 0 /\ Len(f.x) >= n * f.shape[Len(f.shape)]
+CellListWF(e) ==
+  /\ \A c \in DOMAIN e.R : /\ Len(e.R[c]) = Len(e.idx)
+                           /\ \A r \in DOMAIN e.R[c] : \A k \in DOMAIN e.R[c][r] :
+                                FieldsWF(e.R[c][r][k]) /\ \A f \in DOMAIN e.R[c][r][k] : ListFieldWF(e.R[c][r][k][f], 1)
+  /\ \A l \in DOMAIN e.lists : e.lists[l].err = "" =>
+       /\ Len(e.lists[l].F) = Len(e.idx)
+       /\ \A r \in DOMAIN e.lists[l].F : \A k \in DOMAIN e.lists[l].F[r] :
+            FieldsWF(e.lists[l].F[r][k]) /\ \A f \in DOMAIN e.lists[l].F[r][k] :
+                                              ListFieldWF(e.lists[l].F[r][k][f], Len(e.lists[l].tind))
+CellListHolds(e) ==
+  LET bits == IF SpecAnyGlobal(e.spec) THEN TolGlobBits ELSE TolMapBits IN
+  \A l \in DOMAIN e.lists :
+     LET L == e.lists[l] IN
+     /\ L.err = ""
+     /\ \A r \in DOMAIN e.idx : \A p \in DOMAIN L.tind :
+          LET G == L.F[r]  S == e.R[L.tind[p]][r] IN
+          /\ Len(G) = Len(S)
+          /\ \A k \in DOMAIN G :
+               /\ Len(G[k]) = Len(S[k])
+               /\ \A f \in DOMAIN G[k] :
+                    LET a == CellSlice(G[k][f], p)  b == S[k][f].x IN
+                    /\ G[k][f].name = S[k][f].name /\ Len(a) = Len(b)
+                    /\ \A m \in DOMAIN a : FxNearK(a[m], b[m], bits, MagOf(a[m]) + MagOf(b[m]))
+
+\* ---------------------------------------------------------------------------
 \* Dual.  e.how =
 \*  "nodal"  rows = the local DOFs j that have a location, M[r][i] = phi_i(dofloc_rows[r]) (lbasis), X[r] = location
 \*  "flux"   verts (integers, local order, one affine cell), ents = local facets (1-based local vertices),
@@ -678,14 +723,16 @@ PoUWF(e) == \A q \in DOMAIN e.V : Len(e.V[q]) = e.N /\ AllFxSeq(e.V[q]) /\ Moder
 PoUHolds(e) == \A q \in DOMAIN e.V : FxNearK(FxSumAll(e.V[q]), FxInt(1), TolDualBits, e.N * MaxMagSeq(e.V[q]))
 
 \* ---------------------------------------------------------------------------
-EventKinds == {"Deriv", "Map", "Wrap", "Dual", "PoU", "Agree"}
+EventKinds == {"Deriv", "Map", "Wrap", "Dual", "PoU", "Agree", "CellList"}
 HarnessWF(e) ==
   /\ e.a \in EventKinds
   /\ CASE e.a = "Deriv" -> DerivHarnessWF(e) [] e.a = "Map" -> MapHarnessWF(e) [] e.a = "Wrap" -> WrapHarnessWF(e)
        [] e.a = "Dual" -> DualHarnessWF(e) [] e.a = "PoU" -> PoUHarnessWF(e) [] e.a = "Agree" -> AgreeHarnessWF(e)
+       [] e.a = "CellList" -> CellListHarnessWF(e)
 ResultWF(e) ==
   CASE e.a = "Deriv" -> DerivWF(e) [] e.a = "Map" -> MapWF(e) [] e.a = "Wrap" -> WrapWF(e)
     [] e.a = "Dual" -> DualWF(e) [] e.a = "PoU" -> PoUWF(e) [] e.a = "Agree" -> AgreeWF(e)
+    [] e.a = "CellList" -> CellListWF(e)
 
 C09Clauses(e) ==
   IF e.a \notin EventKinds THEN [HarnessInputWellFormed |-> FALSE]
@@ -699,5 +746,6 @@ C09Clauses(e) ==
           [] e.a = "Dual"  -> [Duality |-> DualHolds(e)] @@
                               (IF e.how = "nodal" THEN [Drift_DofLocInCell |-> DofLocsInCell(e)] ELSE <<>>)
           [] e.a = "Agree" -> [EvaluationFormsAgree |-> AgreeHolds(e)]
+          [] e.a = "CellList" -> [CellListCommutes |-> CellListHolds(e)]
           [] e.a = "PoU"   -> [PartitionOfUnity |-> PoUHolds(e)])
 ==============================================================================
